@@ -83,3 +83,73 @@ def id_schemes(b, full):
     if b == 1:
         return [base]
     return [base, list(reversed(base))]
+
+
+# ------------------------------------------------------------------ structured larger families (DESIGN section 3)
+def _val(kind, k, palette):
+    pv, ps = sp.PALETTES[palette]
+    v = pv[k % len(pv)]
+    sv = ps[k % len(ps)]
+    if kind in ("Z", "Y"):
+        return [v]
+    if kind == "load":
+        return [v if not isinstance(v, list) else v[0], 3]
+    if kind in ("V", "I"):
+        return [sv]
+    if kind in ("LV", "LI"):
+        return [sv, v]
+    return []
+
+
+def structured_netlists(tier):
+    """yield (family name, netlist without reference) for ladders (2..8 sections), rings (3..8 elements, every source
+    position) and complete graphs K3..K5 with one source branch, over a short list of kind patterns"""
+    ladders = [("V", "Z", "Y"), ("I", "Y", "Z"), ("LV", "Z", "load"), ("LI", "Z", "Z"), ("V", "Y", "Y")]
+    rings = [("V", "Z"), ("LV", "Y"), ("I", "Z"), ("LI", "load")]
+    max_sec = 8 if tier == "thorough" else 6
+    for src, ser, shu in ladders:
+        for nsec in range(2, max_sec + 1):
+            br = [["n1", "n0", src, "S", None]]
+            for k in range(nsec):
+                br.append(["n%d" % (k + 1), "n%d" % (k + 2), ser, "a%02d" % k, None])
+                br.append(["n%d" % (k + 2), "n0", shu, "b%02d" % k, None])
+            yield "ladder", br
+    for src, el in rings:
+        for n in range(3, (8 if tier == "thorough" else 6) + 1):
+            for pos in range(n):
+                br = []
+                for k in range(n):
+                    kind = src if k == pos else el
+                    if src == "I" and k == (pos + 1) % n:
+                        kind = "Z"
+                    br.append(["n%d" % k, "n%d" % ((k + 1) % n), kind, "e%02d" % k, None])
+                if src in ("I", "LI"):
+                    # a current source in a pure series ring needs a return path across it
+                    br.append(["n%d" % pos, "n%d" % ((pos + 1) % n), "Y", "par", None])
+                yield "ring", br
+    for n in (3, 4, 5):
+        pairs = [(i, j) for i in range(n) for j in range(i + 1, n)]
+        for spos in range(len(pairs)):
+            for src in ("V", "LV", "I"):
+                br = []
+                for k, (i, j) in enumerate(pairs):
+                    kind = src if k == spos else ("Z" if (k % 2 == 0) else "Y")
+                    br.append(["n%d" % i, "n%d" % j, kind, "k%02d" % k, None])
+                yield "complete", br
+
+
+def instantiate(br, palette, labels, ids_desc, flip_mask):
+    """fill values, rename nodes n<k> -> labels[k], optionally reverse ids and flip orientation of the branches in flip_mask"""
+    out = []
+    names = [b[3] for b in br]
+    if ids_desc:
+        ren = dict(zip(sorted(names), sorted(names, reverse=True)))
+    else:
+        ren = {n: n for n in names}
+    for k, b in enumerate(br):
+        n1, n2 = labels[int(b[0][1:])], labels[int(b[1][1:])]
+        p = _val(b[2], k, palette)
+        if (flip_mask >> (k % 16)) & 1:
+            n1, n2 = n2, n1
+        out.append([n1, n2, b[2], ren[b[3]], p])
+    return out
